@@ -1,6 +1,10 @@
 package main
 
 import (
+	"fmt"
+	"math"
+	"strconv"
+	"strings"
 	"sync"
 	"time"
 
@@ -23,6 +27,29 @@ type Ev struct {
 	Seq   int
 	Gid   int64
 	TagsP uintptr
+	Spec  string // hval / hdur: the Buckets argument as the reporter saw it (kind, then the bounds in the order given)
+}
+
+// specString renders a Buckets value at the moment the reporter is handed it
+func specString(b tally.Buckets) string {
+	switch x := b.(type) {
+	case nil:
+		return "nil"
+	case tally.ValueBuckets:
+		parts := make([]string, len(x))
+		for i, v := range x {
+			parts[i] = strconv.FormatUint(math.Float64bits(v), 16)
+		}
+		return "v:" + strings.Join(parts, ",")
+	case tally.DurationBuckets:
+		parts := make([]string, len(x))
+		for i, d := range x {
+			parts[i] = strconv.FormatInt(int64(d), 10)
+		}
+		return "d:" + strings.Join(parts, ",")
+	default:
+		return fmt.Sprintf("%T", b)
+	}
 }
 
 func copyTags(m map[string]string) map[string]string {
@@ -95,10 +122,10 @@ func (r *recReporter) ReportTimer(name string, tags map[string]string, d time.Du
 	r.log.add(Ev{Kind: "timer", Name: name, Tags: copyTags(tags), I: int64(d)})
 }
 func (r *recReporter) ReportHistogramValueSamples(name string, tags map[string]string, b tally.Buckets, lo, hi float64, n int64) {
-	r.log.add(Ev{Kind: "hval", Name: name, Tags: copyTags(tags), LoF: lo, HiF: hi, I: n})
+	r.log.add(Ev{Kind: "hval", Name: name, Tags: copyTags(tags), LoF: lo, HiF: hi, I: n, Spec: specString(b)})
 }
 func (r *recReporter) ReportHistogramDurationSamples(name string, tags map[string]string, b tally.Buckets, lo, hi time.Duration, n int64) {
-	r.log.add(Ev{Kind: "hdur", Name: name, Tags: copyTags(tags), LoD: lo, HiD: hi, I: n})
+	r.log.add(Ev{Kind: "hdur", Name: name, Tags: copyTags(tags), LoD: lo, HiD: hi, I: n, Spec: specString(b)})
 }
 func (r *recReporter) Capabilities() tally.Capabilities { return r.caps }
 func (r *recReporter) Flush()                           { r.log.add(Ev{Kind: "flush"}) }
